@@ -156,7 +156,11 @@ class HttpRelayClient(RelayPoolClient):
                 message = match.group(2)
             elif match.group(1).lower() == 'command':
                 command = match.group(2)
-        return Reply(code, message, command)
+        try:
+            return Reply(code, message, command)
+        except ValueError:
+            # Three digits, but not a reply code: as good as no header.
+            return None
 
     def _process_response(self, http_res, result):
         status = '{0!s} {1}'.format(http_res.status, http_res.reason)
